@@ -50,9 +50,35 @@ class Unit:
 def hdr(im, ty_generic):
     """(generics text incl. <>, where text incl. `where`, where for free fns)"""
     g = "<%s>" % im.generics if im.generics else ""
-    w = ("where " + im.where.rstrip().rstrip(",")) if im.where.strip() else ""
-    wf = re.sub(r"\bSelf\b", ty_generic, w)
+    # predicates on Self (e.g. `Self: Eq` on the Ord impl) are not repeated on the generated spec
+    # free spec fns: an `E: Eq` bound on the spec fns behind E's own spec impls makes Verus treat
+    # E's eq_spec as opaque (measured: every exit of the verbatim `eq` then fails)
+    allp = [q.strip() for q in split_top(im.where) if q.strip()]
+    preds = [q for q in allp if not re.match(r"Self\s*:", q)]
+    w = ("where " + ", ".join(allp)) if allp else ""                 # spec impls: same header as the generated impl
+    wf = ("where " + ", ".join(preds)) if preds else ""               # free spec fns / lemmas: no predicate on the type itself
+    wf = re.sub(r"\bSelf\b", ty_generic, wf)
     return g, w, wf
+
+
+def split_top(text):
+    """split at top-level commas"""
+    toks = rs.lex(text)
+    out, depth, last = [], 0, 0
+    i = 0
+    while i < len(toks):
+        t = toks[i]
+        if t[0] == "punct" and t[1] in rs.OPEN:
+            i = rs.match_close(toks, i) + 1
+            continue
+        if t[0] == "punct" and t[1] == "<":
+            i = rs._angle_close(toks, i) + 1
+            continue
+        if t[0] == "punct" and t[1] == ",":
+            out.append(text[last:t[2]]); last = t[3]
+        i += 1
+    out.append(text[last:])
+    return out
 
 
 def param_names(sig):
